@@ -36,6 +36,8 @@ func scenarioDefs() []scenarioDef {
 		{"11-kupd-lower-cap", 1, (*scen).kupdLower},
 		{"12-fixed-remainders-one-bidder", 1.5, (*scen).fixedRemainders},
 		{"13-window-jumped-then-cancel", 1, (*scen).windowJump},
+		{"14-worth-bid-a-hair-below-an-integer", 1, (*scen).worthHair},
+		{"15-fixed-paying-bid-a-hair-below-an-integer", 1, (*scen).fixedHair},
 	}
 }
 
@@ -979,4 +981,94 @@ func (sc *scen) windowJump() bool {
 	sc.block(g.now + 1)
 	sc.do(fmt.Sprintf("cancel %d %d", sc.owner, id))
 	return true
+}
+
+// ---------------------------------------------------------------------------------------------
+// 14. a worth bid whose amount / price lies a hair (< 10^-18 relative) below a whole number of
+// coins: truncation gives n − 1 coins, any rounding gives n (and then the bidder would be
+// charged more than was reserved); also the mirror case a hair above
+
+func (sc *scen) worthHair() bool {
+	g := sc.g
+	if len(sc.bidders) < 2 {
+		return false
+	}
+	A, B := sc.bidders[0], sc.bidders[1]
+	q := mul(bi(int64(g.between(1, 9))), p10(g.between(0, 7))) // whole price units
+	n := bi(int64(g.between(1, 12)))
+	base := mul(q, one18)
+	var p *big.Int
+	switch g.intn(3) {
+	case 0:
+		p = add(base, bi(1)) // W/p a hair below n
+	case 1:
+		p = sub(base, bi(1)) // a hair above n
+	default:
+		p = add(base, bi(int64(g.between(1, 3))))
+	}
+	W := mul(n, q)
+	S := add(n, bi(int64(g.between(0, 5))))
+	end := g.now + 3600
+	minBid := maxB(quo(p, bi(2)), bi(1))
+	id, ok := sc.createBatch(p, minBid, S, 0, g.rate(), g.now, end, sc.smallSched(end))
+	if !ok {
+		return false
+	}
+	if !sc.kadd(id, capEntry{A, S}, capEntry{B, S}) {
+		return false
+	}
+	sc.place(A, id, "W", p, sc.pd, W)
+	sc.noise()
+	if g.chance(0.6) {
+		// a second, ordinary bid at the same price so that the level holds two bids
+		sc.place(B, id, "M", p, sc.sd, bi(int64(g.between(1, 3))))
+	}
+	if g.chance(0.4) {
+		sc.place(B, id, "W", p, sc.pd, add(W, bi(int64(g.between(0, 2)))))
+	}
+	sc.noise()
+	return sc.block(end)
+}
+
+// ---------------------------------------------------------------------------------------------
+// 15. fixed price: a paying-denominated bid whose amount is short of k × price by less than half
+// a raw unit of the quotient (huge price and amount k·price − 1, or price q + 10^-18 and amount
+// k·q): truncation gives k − 1 coins, rounding gives k for less than k × price
+
+func (sc *scen) fixedHair() bool {
+	g := sc.g
+	if len(sc.bidders) < 2 {
+		return false
+	}
+	A, B := sc.bidders[0], sc.bidders[1]
+	k := bi(int64(g.between(1, 9)))
+	var p, amt *big.Int
+	if g.chance(0.5) {
+		// price m·10^e (value) with e ≥ 18: 1/price < 0.5·10^-18
+		p = mul(mul(bi(int64(g.between(2, 9))), p10(g.between(18, 20))), one18)
+		amt = sub(quo(mul(k, p), one18), bi(1))
+	} else {
+		q := bi(int64(g.between(2, 9)))
+		p = add(mul(q, one18), bi(int64(g.between(1, 2))))
+		amt = mul(k, q)
+	}
+	S := add(k, bi(int64(g.between(1, 5))))
+	end := g.now + 3600
+	id, ok := sc.createFixed(p, S, g.now, end, sc.smallSched(end))
+	if !ok {
+		return false
+	}
+	if !sc.kadd(id, capEntry{A, S}, capEntry{B, S}) {
+		return false
+	}
+	sc.place(A, id, "F", p, sc.pd, amt)
+	sc.noise()
+	if g.chance(0.5) {
+		sc.place(B, id, "F", p, sc.sd, bi(1))
+	}
+	if g.chance(0.5) {
+		sc.place(A, id, "F", p, sc.pd, add(amt, bi(1)))
+	}
+	sc.noise()
+	return sc.block(end)
 }
